@@ -1,13 +1,8 @@
 (* Spec-side facts about coefficient reconstruction: dequantisation formula,
    zig-zag order as an anti-diagonal walk, INTRADC levels, quantizer update. *)
-From H263V Require Import base.Prelude model.Types model.Tables model.Reader model.Header model.Syntax model.F32 model.Recon model.Decoder.
+From H263V Require Import base.Prelude spec.SpecRecon model.Types model.Tables model.Reader model.Header model.Syntax model.F32 model.Recon model.Decoder.
 Require Import ZifyBool.
 Ltac Zify.zify_post_hook ::= Z.to_euclidean_division_equations.
-
-(* H.263 6.2.1: |REC| = QUANT (2 |LEVEL| + 1), minus 1 if QUANT is even; sign of LEVEL; clipped to -2048..2047 *)
-Definition spec_dequant (q level : Z) : Z :=
-  let mag := q * (2 * Z.abs level + 1) - (if Z.even q then 1 else 0) in
-  clamp (-2048) 2047 (Z.sgn level * mag).
 
 Lemma dequant_is_spec q level : 0 <= q -> dequant q level = spec_dequant q level.
 Proof.
@@ -27,13 +22,6 @@ Proof.
   destruct (Z.even q); destruct (0 <? level) eqn:E; lia.
 Qed.
 
-(* the zig-zag scan: anti-diagonals s = x + y = 0..14, odd diagonals from top right to bottom left *)
-Definition diag_cells (s : Z) : list (Z * Z) :=
-  let xs := filter (fun x => (0 <=? s - x) && (s - x <? 8)) (map Z.of_nat (seq 0 8)) in
-  let cells := map (fun x => (x, s - x)) xs in
-  if Z.odd s then rev cells else cells.
-Definition zigzag_walk : list (Z * Z) := flat_map diag_cells (map Z.of_nat (seq 0 15)).
-
 Lemma dezigzag_is_walk : dezigzag_mapping = zigzag_walk.
 Proof. vm_compute. reflexivity. Qed.
 
@@ -48,8 +36,8 @@ Qed.
 
 (* quantizer after DQUANT: clamped to 1..31 *)
 Lemma next_quant_spec q d : 0 <= q <= 31 -> (d = -2 \/ d = -1 \/ d = 1 \/ d = 2) ->
-  next_quant q (Some d) = Z.max 1 (Z.min 31 (q + d)).
-Proof. intros Hq Hd. unfold next_quant, clamp. lia. Qed.
+  next_quant q (Some d) = spec_next_quant q d.
+Proof. intros Hq Hd. unfold next_quant, spec_next_quant, clamp. lia. Qed.
 
 Lemma dquant_arms_spec : dquant_arms = [-1; -2; 1; 2].
 Proof. reflexivity. Qed.
